@@ -144,13 +144,20 @@ impl PropertyValue {
 
     /// Decode property value from bytes.
     pub fn decode(bytes: &[u8]) -> Result<Self, DecodeError> {
-        let (value, _) = Self::decode_recursive(bytes)?;
+        let (value, _) = Self::decode_recursive(bytes, 0)?;
         Ok(value)
     }
 
-    fn decode_recursive(bytes: &[u8]) -> Result<(Self, usize), DecodeError> {
+    /// Nesting accepted by `decode` (lists / maps inside lists / maps).  Deeper input is
+    /// rejected instead of overflowing the stack.
+    const MAX_DECODE_DEPTH: usize = 128;
+
+    fn decode_recursive(bytes: &[u8], depth: usize) -> Result<(Self, usize), DecodeError> {
         if bytes.is_empty() {
             return Err(DecodeError::Empty);
+        }
+        if depth > Self::MAX_DECODE_DEPTH {
+            return Err(DecodeError::InvalidLength);
         }
         let ty = bytes[0];
         match ty {
@@ -214,9 +221,10 @@ impl PropertyValue {
                     u32::from_le_bytes(bytes[1..5].try_into().expect("slice length checked"))
                         as usize;
                 let mut pos = 5;
-                let mut items = Vec::with_capacity(count);
+                // `count` is untrusted: every item takes at least one byte.
+                let mut items = Vec::with_capacity(count.min(bytes.len()));
                 for _ in 0..count {
-                    let (item, consumed) = Self::decode_recursive(&bytes[pos..])?;
+                    let (item, consumed) = Self::decode_recursive(&bytes[pos..], depth + 1)?;
                     items.push(item);
                     pos += consumed;
                 }
@@ -247,7 +255,7 @@ impl PropertyValue {
                     let key = String::from_utf8(bytes[pos..pos + k_len].to_vec())
                         .map_err(|_| DecodeError::InvalidUtf8)?;
                     pos += k_len;
-                    let (val, consumed) = Self::decode_recursive(&bytes[pos..])?;
+                    let (val, consumed) = Self::decode_recursive(&bytes[pos..], depth + 1)?;
                     map.insert(key, val);
                     pos += consumed;
                 }
